@@ -121,6 +121,15 @@ func c04CheckPCR(c c04PCRCase) engine.Result {
 				if !bytes.Equal(b, keep) {
 					res.Failf("ExtractPCR|input-modified", "input modified")
 				}
+				// the same six bytes at the start of a LONGER slice (what follows a PCR in a packet is none of its
+				// business: OPCR, stuffing, payload)
+				for _, tail := range [][]byte{{0x00, 0x00}, {0xFF, 0xFF, 0xFF}, {0x12, 0x34, 0x56, 0x78, 0x9A, 0xBC, 0xDE, 0xF0, 0x11, 0x22}} {
+					long := append(append([]byte{}, b...), tail...)
+					res.Evals++
+					if got := gots.ExtractPCR(long); got != v {
+						res.Failf("ExtractPCR|reserved-bits,longer-slice", "pcr %d with reserved bits flipped, as the first six of %d bytes (% x) decodes as %d", v, len(long), long, got)
+					}
+				}
 			}
 			if len(res.Fail) > 6 {
 				return
@@ -581,6 +590,11 @@ func c04CheckE2E(c c04E2ECase) engine.Result {
 					// payload lengths 0 (the slice ends exactly on the last header byte), 1 and 4
 					w.Bytes([]byte{0xDE, 0xAD, 0xBE, 0xEF}[:[]int{4, 0, 1}[(int(sid)+extra/2+int(c.V))%3]])
 					in := w.Out()
+					if (k+int(sid)+extra/2)%2 == 1 {
+						// PES_packet_length: every other packet announces its exact length (3 + header data + payload,
+						// i.e. 0..4 payload bytes behind the header) instead of 0
+						in[4], in[5] = byte((len(in)-6)>>8), byte(len(in)-6)
+					}
 					keep := append([]byte{}, in...)
 					res.Evals++
 					h, err := pes.NewPESHeader(in)
